@@ -2,7 +2,7 @@ CONTRACTS = 'contracts.type_discretizers'
 F = 'AutoCarver/discretizers/utils/type_discretizers.py'
 MUTANTS = [
  (F, '            values_order.group(value, str_value)', '            values_order.group(str_value, value)', None),
- (F, '            values_order.append(str_value)\n', '            pass\n', None),
+ (F, '            values_order.append(str_value)  # adding string value to the order', '            pass', None),
  (F, '        if str_value not in values_order:', '        if str_value in values_order:', None),
  (F, '            str_value = str(int(value))', '            str_value = str(value)', None),
 ]
